@@ -117,13 +117,13 @@ pub fn check_case(c: &Case) -> Check {
         }
         // single-variable primitive
         for v in &dedup {
-            let r = env.exists_impl(v, Rc::clone(&hf));
-            let got = plain::table_usize(&r, &uni).map_err(|e| viol(format!("exists_impl: {}", e), &cj))?;
+            let r = env.exists(vec![*v], Rc::clone(&hf));
+            let got = plain::table_usize(&r, &uni).map_err(|e| viol(format!("exists([v]): {}", e), &cj))?;
             if got != ft.exists(pos_in(&uni, *v)) {
-                return Err(viol(format!("exists_impl({}, f) is not the or of the two cofactors", v), &cj));
+                return Err(viol(format!("exists([{}], f) is not the or of the two cofactors", v), &cj));
             }
             if plain::support_syms(&r).contains(v) {
-                return Err(viol(format!("exists_impl({}, f) still tests {}", v, v), &cj));
+                return Err(viol(format!("exists([{}], f) still tests {}", v, v), &cj));
             }
         }
         // duality as a consequence, checked against tables
@@ -235,7 +235,7 @@ fn lists_upto(cands: &[usize], maxlen: usize) -> Vec<Vec<usize>> {
 pub fn run(ctx: &mut Ctx) -> Result<(), Violation> {
     ctx.rule = "cases = (function f as a truth table on concrete ids, variable list V). Exhaustive: all 256 functions of 3 variables on ids {1,2,3} x all lists of length <= 3 over candidates {0 (above), 1,2,3 (inside), 4 (below/absent)}; \
                 thorough adds all 65536 functions of 4 variables on ids {1,2,4,5} x all lists of length <= 2 over {0..6}. Random: f of up to 6 variables with ids in 0..10, V of length 0..5. \
-                Checked per case: exists/all tables against cofactor or/and, support disjoint from V, invariance under reversing/rotating/doubling/deduplicating V, identity when V misses the support, exists_impl, duality, and (sampled) the same through `exists|any|forall|all V # dnf(f)` text. \
+                Checked per case: exists/all tables against cofactor or/and, support disjoint from V, invariance under reversing/rotating/doubling/deduplicating V, identity when V misses the support, single-variable elimination, duality, and (sampled) the same through `exists|any|forall|all V # dnf(f)` text. \
                 Non-trivial = V meets the support of f and (the result is non-constant, or V has a repeated or absent variable); distinct by serialized case."
         .to_string();
     ctx.assume("operands interned via mk_choice; oracle = or/and of the two cofactors on truth tables");
